@@ -128,7 +128,10 @@ def objects(draw, max_sections=5, want_relocs=False):
         size = len(expand(sections[si - 1][1]))
         # symbol names are free text: short ones, a name of a thousand-odd characters (mangled C++), names that read like the
         # listing's own title / section lines
-        nm = f"sym{q}" if draw(st.integers(0, 5)) else draw(st.sampled_from(["_ZN" + "4aaaa" * 260 + "E", "log file format error", "go.string.unknown file format", "Disassembly of section .text", "a b", "x:"]))
+        nm = f"sym{q}" if draw(st.integers(0, 5)) else draw(st.sampled_from(["_ZN" + "4aaaa" * 260 + "E", "log file format error", "go.string.unknown file format", "Disassembly of section .text", "a b", "x:",
+                                                                                  # what objdump -C prints for C++ symbols: '<', '>', blanks, commas, parentheses inside the name
+                                                                                  "sum(std::vector<int, std::allocator<int> > const&)", "less(std::pair<int, int> const&, std::pair<int, int> const&)",
+                                                                                  "operator> (A const&, B const&)", "std::map<K, V>::find(K const&)", "f<g<h> >::operator()(int) const"]))
         symbols.append([nm, si, draw(st.integers(0, max(0, size - 1))), draw(st.sampled_from(["func", "func", "func", "object"]))])
     desc = {"bits": bits, "sections": sections, "symbols": symbols}
     if bits == 64 and (want_relocs or draw(st.integers(0, 1)) == 0):
